@@ -997,6 +997,29 @@ fn run_vh_pow2<G: GroupApi>(tr: &mut Trace, rng: &mut Rng, plan: &Plan) {
     let js: Vec<usize> = if hw > 130 { let mut t = js.clone(); t.extend_from_slice(&[hw - 1, hw, hw + 1]); t } else { js };
     let mut m = Mach::<G>::new(tr);
     let mut ok = m.cst(0, "NEUTRAL") && m.cst(1, "BASE") && m.mulgen(2, &rng.bytes(G::SC_LEN), 0);
+    // coefficients just below a power of two (2^j - t, t odd and small): the wNAF recoding of such a value carries all the
+    // way up; and the trivial challenges 1, 2, n - 1
+    {
+        let mut ks: Vec<BigUint> = vec![BigUint::from(1u32), BigUint::from(2u32), &n - 1u32];
+        let hwj = (n.bits() as usize + 1) / 2;
+        let mut jj = vec![128usize, hwj]; jj.dedup();
+        let mut cnt = 0usize;
+        for j in jj { for t in [1u32, 15, 3, 17] { for mm in [1u32, 3] {
+            if plan.scalars <= 100 && (t == 3 || t == 17) && mm == 3 { continue; }
+            let c = ((BigUint::from(1u32) << j) - t) % &n;
+            let mb = BigUint::from(mm);
+            cnt += 1;
+            let kk = if cnt % 2 == 0 { (&c * inv(&mb)) % &n } else { (&mb * inv(&c)) % &n };
+            ks.push(if cnt % 4 < 2 { kk } else { (&n - kk) % &n });
+        } } }
+        for kk in ks.iter() {
+            if !ok { m = Mach::<G>::new(tr); ok = m.cst(0, "NEUTRAL") && m.cst(1, "BASE") && m.mulgen(2, &rng.bytes(G::SC_LEN), 0); if !ok { break; } }
+            let k = to_le(kk, G::SC_LEN);
+            let s = rng.bytes(G::SC_LEN);
+            ok = m.mulgen(8, &s, 0) && m.mul(9, 2, &k, 0) && m.bin("sub", 10, 8, 9, 0);
+            if ok { m.verify_helper(2, 10, &s, &k); }
+        }
+    }
     for j in js { for mm in ms.iter() { for form in 0..2 { for sign in 0..2 {
         if !ok { m = Mach::<G>::new(tr); ok = m.cst(0, "NEUTRAL") && m.cst(1, "BASE") && m.mulgen(2, &rng.bytes(G::SC_LEN), 0); }
         let t = (BigUint::from(1u32) << j) % &n;
